@@ -4,48 +4,71 @@ The property statements themselves are in /verif/properties.jsonl (given, fixed)
 
 PURE = "pure.py"
 
+G = "xandikos.store.git."
+STORE_ABS = [G + "GitStore._scan_uids", G + "GitStore._check_duplicate", G + "GitStore.import_one"]
+BARE = [G + "BareGitStore._import_one", G + "BareGitStore.delete_one", G + "BareGitStore._get_etag", G + "BareGitStore.get_ctag"]
+TREE = [G + "TreeGitStore._import_one", G + "TreeGitStore.delete_one", G + "TreeGitStore._get_etag", G + "TreeGitStore.get_ctag"]
+TR = ["xandikos.icalendar.apply_time_range_vevent", "xandikos.icalendar.apply_time_range_vtodo",
+      "xandikos.icalendar.apply_time_range_vjournal"]
+
 PROPS = {
+    "C01": {
+        "level": "other",
+        "functions": [G + "GitStore.import_one", G + "GitStore._check_duplicate",
+                      G + "BareGitStore._import_one", G + "BareGitStore.delete_one", G + "BareGitStore._get_etag",
+                      G + "TreeGitStore._import_one", G + "TreeGitStore.delete_one", G + "TreeGitStore._get_etag",
+                      G + "GitStore.iter_with_etag", "xandikos.web.ObjectResource.set_body"],
+        "explanation": "Store transitions and handler outcomes are discharged per function over the abstract member map; "
+                       "the history-quantified statement is the induction over these contracts (DESIGN 6/C01).",
+    },
     "C02": {
         "level": "proof",
-        "functions": [
-            "xandikos.web.create_strong_etag",
-            "xandikos.web.extract_strong_etag",
-        ],
+        "functions": ["xandikos.web.create_strong_etag", "xandikos.web.extract_strong_etag",
+                      "xandikos.web.ObjectResource.get_etag", "xandikos.web.ObjectResource.set_body",
+                      G + "BareGitStore._import_one", G + "TreeGitStore._import_one",
+                      G + "BareGitStore._get_etag", G + "TreeGitStore._get_etag", G + "GitStore.iter_with_etag"],
         "replay": {"xandikos.web.create_strong_etag": PURE, "xandikos.web.extract_strong_etag": PURE},
         "standins": {"xandikos.web.create_strong_etag": {"driver": PURE, "bound": "all strings of length <= 4 over {\", a, 0, space}"}},
     },
     "C03": {
         "level": "proof",
-        "functions": [
-            "xandikos.webdav.etag_matches",
-            "xandikos.web.extract_strong_etag",
-        ],
+        "functions": ["xandikos.webdav.etag_matches", "xandikos.web.extract_strong_etag",
+                      G + "GitStore._check_duplicate", G + "BareGitStore.delete_one", G + "TreeGitStore.delete_one",
+                      "xandikos.web.ObjectResource.set_body"],
         "replay": {"xandikos.webdav.etag_matches": PURE, "xandikos.web.extract_strong_etag": PURE},
         "standins": {"xandikos.webdav.etag_matches": {"driver": PURE, "bound": "header values of <= 4 tokens over {\"a\",\"b\",*,space,comma,a,\",''} x 4 etags"}},
     },
+    "C04": {
+        "level": "other",
+        "functions": [G + "TreeGitStore._import_one", G + "TreeGitStore.delete_one", G + "BareGitStore._import_one",
+                      G + "BareGitStore.delete_one"],
+        "explanation": "Effect-order obligations (objects before ref move, index last, lock held) on xandikos' own write "
+                       "functions; atomicity of each primitive is assumed; no crash point is visited.",
+    },
     "C06": {
         "level": "proof",
-        "functions": [
-            "xandikos.store.git.GitStore._scan_uids",
-        ],
+        "functions": STORE_ABS,
+    },
+    "C07": {
+        "level": "proof",
+        "functions": [G + "GitStore.iter_changes", G + "GitStore.iter_with_etag", G + "BareGitStore.get_ctag",
+                      G + "TreeGitStore.get_ctag"],
+    },
+    "C08": {
+        "level": "proof",
+        "functions": [G + "BareGitStore.get_ctag", G + "TreeGitStore.get_ctag", G + "BareGitStore._import_one",
+                      G + "TreeGitStore._import_one", G + "BareGitStore.delete_one", G + "TreeGitStore.delete_one"],
+    },
+    "C09": {
+        "level": "proof",
+        "functions": [G + "BareGitStore._import_one", G + "BareGitStore.delete_one", G + "TreeGitStore._import_one",
+                      G + "TreeGitStore.delete_one"],
     },
     "C11": {
         "level": "proof",
-        "functions": [
-            "xandikos.icalendar.apply_time_range_vevent",
-            "xandikos.icalendar.apply_time_range_vtodo",
-            "xandikos.icalendar.apply_time_range_vjournal",
-        ],
-        "replay": {
-            "xandikos.icalendar.apply_time_range_vevent": PURE,
-            "xandikos.icalendar.apply_time_range_vtodo": PURE,
-            "xandikos.icalendar.apply_time_range_vjournal": PURE,
-        },
-        "standins": {
-            "xandikos.icalendar.apply_time_range_vevent": {"driver": PURE, "bound": "presence subsets x 3 time values x boundary +-1 grid"},
-            "xandikos.icalendar.apply_time_range_vtodo": {"driver": PURE, "bound": "presence subsets x 3 time values x boundary +-1 grid"},
-            "xandikos.icalendar.apply_time_range_vjournal": {"driver": PURE, "bound": "presence subsets x 3 time values x boundary +-1 grid"},
-        },
+        "functions": TR,
+        "replay": {f: PURE for f in TR},
+        "standins": {f: {"driver": PURE, "bound": "presence subsets x 3 time values x boundary +-1 grid"} for f in TR},
     },
 }
 
